@@ -212,3 +212,8 @@ def shrink_program(case, still_fails, budget=250, key="src"):
                 changed = True
                 break
     return best
+
+
+def fmt_opts_json(opts):
+    o = fmt_opts(opts)
+    return {"safe": o["safe"], "keep_imports": o["keep_imports"], "preserve": sorted(o["preserve"]), "max_line_length": o["max_line_length"]}
